@@ -72,8 +72,25 @@ func c08Enumerate(r *mc.Report, n int, lifes [][]string, shard, nshards int) {
 				if nshards > 1 && k%nshards != shard {
 					continue
 				}
-				for _, form := range []string{"plain", "keyed", "group"} {
-					t := uniformTargets(n, form)
+				var targetSets [][]string
+				if n <= 3 {
+					// every per-service assignment: in particular DEPENDENTS registered as group members /
+					// keyed / aliased services whose own dependencies are plain or keyed (and may be missing)
+					targetSets = allTargets(n, []string{"plain", "keyed", "group"})
+					if n <= 2 {
+						targetSets = allTargets(n, []string{"plain", "keyed", "group", "alias"})
+					}
+				} else {
+					for _, f := range []string{"plain", "keyed", "group"} {
+						targetSets = append(targetSets, uniformTargets(n, f))
+					}
+					targetSets = append(targetSets, []string{"group", "plain", "keyed", "plain"}, []string{"keyed", "group", "plain", "alias"}, []string{"alias", "group", "group", "plain"})
+				}
+				for _, t := range targetSets {
+					form := "mixed"
+					if fmt.Sprint(t) == fmt.Sprint(uniformTargets(n, t[0])) {
+						form = t[0]
+					}
 					var optIntoMissing uint32
 					for i := 0; i < n; i++ {
 						for j := 0; j < n; j++ {
@@ -112,7 +129,7 @@ func c08Enumerate(r *mc.Report, n int, lifes [][]string, shard, nshards int) {
 func init() {
 	mc.Register(&mc.Check{
 		Prop:        "C08",
-		Rule:        "all dependency DAGs on <=3 services (4 in thorough; quick covers 4 services with uniform lifetimes) x every subset of the non-root services left unregistered x all lifetime assignments x dependency form {plain, keyed, group} x optional-ness {no edge, every edge, exactly the edges into unregistered services} x dependent form {constructor with In struct, positional constructor (also with every dependency declared twice), void initializer, error-only initializer}; oracle: Build must succeed iff the model finds no lifetime conflict and no missing required dependency; after a successful Build every registered identity is resolved from a scope, its child and again and no resolution / scope creation may fail with 'service not found' (or fail at all when the model says valid). plus two-output (multiple-return / result-object) dependents x lifetimes x dependency registered or not x Remove of the first / second / both outputs x re-adding the first type. distinct = (size, edge forms, verdict, model verdict) classes.",
+		Rule:        "all dependency DAGs on <=3 services (4 in thorough; quick covers 4 services with uniform lifetimes) x every subset of the non-root services left unregistered x all lifetime assignments x registration/dependency form per service {plain, keyed, group member, interface alias} (every per-service assignment for <=3 services, so that group members / keyed / aliased dependents with plain or keyed dependencies occur; uniform plus three mixed assignments for 4) x optional-ness {no edge, every edge, exactly the edges into unregistered services} x dependent form {constructor with In struct, positional constructor (also with every dependency declared twice), void initializer, error-only initializer}; oracle: Build must succeed iff the model finds no lifetime conflict and no missing required dependency; after a successful Build every registered identity is resolved from a scope, its child and again and no resolution / scope creation may fail with 'service not found' (or fail at all when the model says valid). plus two-output (multiple-return / result-object) dependents x lifetimes x dependency registered or not x Remove of the first / second / both outputs x re-adding the first type. distinct = (size, edge forms, verdict, model verdict) classes.",
 		Assume:      []string{"built-in injectables are context.Context, Scope and Provider without a key"},
 		MinOutcomes: 6,
 		Jobs: func(tier string) []mc.Job {
